@@ -30,7 +30,11 @@ PROBE_SHEETS = [
     ('.a{x:y}.b{z:w}', {'class_prefix': ''}), ('.x .y{a:b}', {'class_prefix': '\U0001F600'}),
     (':host{c:d}', {'convert_host': True}), (':/**/host{c:d}.a{e:f}', {'convert_host': True, 'class_prefix': 'p'}), (':\\68ost{c:d}', {'convert_host': True}),
     ('@media (a){:hos\\74{c:d}}', {'convert_host': True, 'host_is': 'h'}), (':host{c:d}', {'convert_host': False}),
-    ('@import "a";.b{c:d}', {'import_sign': 'IMP'}), ('a{b:1rpx}', {'rpx_ratio': 375.0}), ('a{b:1rpx}', {}),
+    ('@media (a){@supports (b){:host{c:d}}}@media (e){@supports (b){:host{f:g}}}', {'convert_host': True}),
+    ('@media (a){.x .y{c:d}@supports (b){:host{e:f}}}', {'convert_host': True, 'class_prefix': 'p'}),
+    ('@media (a){@supports (b){:host{c:d}}@supports (k){:host{l:m}}}:host{n:o}', {'convert_host': True}),
+    ('@import "a";.b{c:d}', {'import_sign': 'IMP'}), ('@import "a" screen, print;.b{c:d}', {'import_sign': 'IMP'}),
+    ('@import "a" layer(x) supports(display:grid) screen and (min-width:10px), print;', {'import_sign': 'IMP'}), ('a{b:1rpx}', {'rpx_ratio': 375.0}), ('a{b:1rpx}', {}),
 ]
 IMPORT_POSITION_PROBES = [
     ('@import "a";', {'import_sign': 'IMP'}, 0), ('.x{y:z}@import "a";', {'import_sign': 'IMP'}, 1), (':host{c:d}@import "a";', {'import_sign': 'IMP', 'convert_host': True}, 1),
